@@ -842,6 +842,36 @@ def exec_mutation(world, actor, rec):
         if set(m.nodes) == set(post["nodes"]) and set(m.edges) == set(post["edges"]):
             adopt_order(m, post)
         actor.model = m
+    # C03: has_simplex answers membership exactly (present simplices, and absent node sets drawn
+    # deterministically from the current nodes)
+    if actor.kind == "SC" and exc is None and ok and cfg.get("sc_invariants", True) and op in SC_OWN:
+        present = {frozenset(post["members"][e]) for e in post["edges"]}
+        probes = [csort(mm) for mm in list(present)[:8]]
+        nodes = post["nodes"]
+        k = rec.get("uid", 0)
+        for j in range(4):
+            size = 1 + (k + j) % 3
+            if len(nodes) >= size:
+                start = (k * 7 + j * 3) % len(nodes)
+                cand = [nodes[(start + t * (1 + j % 2)) % len(nodes)] for t in range(size)]
+                if len(set(cand)) == size:
+                    probes.append(cand)
+        probes.append([])
+        for cand in probes:
+            try:
+                got = bool(actor.sut.has_simplex(cand))
+            except Exception as ex:  # noqa
+                world.find({"C03"}, "has_simplex_raised", rec, actor.kind, f"{cand!r}: {type(ex).__name__}: {ex}")
+                ok = False
+                break
+            want = frozenset(cand) in present
+            if got != want:
+                world.find({"C03"}, "has_simplex_wrong", rec, actor.kind,
+                           f"has_simplex({cand!r}) = {got}, but the node set is {'a' if want else 'not a'} simplex")
+                ok = False
+                break
+        world.stats["has_simplex_probes"] += len(probes)
+
     # C04 oracle, stated independently of the model: additions never alter existing edges
     if op in ADD_OPS and not relaxed:
         for e in pre["edges"]:
